@@ -31,8 +31,12 @@ func normBig(s string) string {
 	s = reParamsBits.ReplaceAllString(s, "BITS")
 	s = strings.ReplaceAll(s, "global:sm2P256.CurveParams.N", "N")
 	s = strings.ReplaceAll(s, "global:sm2P256.N", "N")
+	// big.NewInt(k) is the constant k, like new(big.Int).SetInt64(k)
+	s = reNewInt.ReplaceAllString(s, "$1")
 	return s
 }
+
+var reNewInt = regexp.MustCompile(`call:math/big\.NewInt\((0x[0-9a-f]+)\)`)
 
 func paramNames(f *ssa.Function, names ...string) map[ssa.Value]string {
 	m := map[ssa.Value]string{}
